@@ -34,3 +34,37 @@ def stores(results, allow_attrs=("training",), allow_owner_prefixes=("params", "
                     if not owner.startswith(allow_owner_prefixes) and not owner.endswith(("_buffers", "_clauses", "_underliers", "_modules", "_parameters")):
                         out.append(f"stores into {owner}[...]")
     return sorted(set(out))
+
+
+def builtin_model_runs(ctx):
+    """(short name, forward FuncInfo, input symbol, paths) for every class of pfhedge.nn.modules (criteria and the hedger aside) whose forward
+    is pfhedge code taking one tensor: the modules the library offers as (parts of) hedging models, interpreted on a generic instance"""
+    from . import world as W
+    from .interp import Obj, Unsupported
+    from .term import Sym
+    prog, interp = ctx.prog, ctx.interp
+    MODS = "pfhedge.nn.modules."
+    skip = ("pfhedge.nn.modules.loss.", "pfhedge.nn.modules.hedger.")
+    inp = W.tensor("input")
+    for q in sorted(q for q in prog.classes if q.startswith(MODS) and not q.startswith(skip) and not q.rsplit(".", 1)[-1].startswith("_")):
+        fwd = prog.lookup_method(q, "forward")
+        if fwd is None or not fwd.qualname.startswith("pfhedge.") or len(fwd.node.args.args) != 2:
+            continue
+        short = q.rsplit(".", 1)[-1]
+        o = Obj(q, short.lower(), {})
+        if ".bs." in q:
+            o.attrs.update(call=True, strike=W.fl("strike"), derivative=None)
+        if short == "WhalleyWilmott":
+            d_ = Obj("pfhedge.instruments.derivative.european.EuropeanOption", "deriv", {"strike": W.fl("K"), "call": True})
+            d_.attrs["underlier"] = Obj(W.PRIMARY, "ul", {"cost": W.fl("cost")})
+            o.attrs.update(a=W.fl("a"), derivative=d_, bs=Sym("ww.bs", ("callable",)))
+        if short == "Naked":
+            o.attrs.update(out_features=1)
+        interp.shapes["input"] = (W.integer("N"), W.integer("T"), 4)
+        try:
+            res = interp.explore(fwd, [inp], {}, self_obj=o, max_paths=60)
+        except Unsupported:
+            res = None
+        finally:
+            interp.shapes.pop("input", None)
+        yield short, fwd, inp, res
